@@ -82,6 +82,13 @@ def judge_text(w, st, t, s, l, depth=0, oid=None):
             if i == ci:
                 continue
             if p.kind == 'otext':
+                # another entity's text used as affix: it must be shown to stand directly next to this one (ADJACENT is filled
+                # by the caller from the function's filters: `[m for m in ms if m.start == start + length]`)
+                if p.obj != oid and not (set(names_of(st, p.obj)) & ADJACENT):
+                    return ('incoherent', 'the text grows by the text of another entity (%s) that is not shown to stand directly '
+                                          'next to it (no `other.start == start + length` filter or test): characters in between '
+                                          'are dropped from text while the length only grows by the other entity\'s length'
+                            % (', '.join(names_of(st, p.obj)) or show_atom(p.obj)))
                 pl = init_atom(p.obj, 'length')      # an adjacent entity used as affix: its own length
             else:
                 pl = slen(p, w.facts)
@@ -102,6 +109,9 @@ def judge_text(w, st, t, s, l, depth=0, oid=None):
     if k == 'lit' and t.value == '':
         return ('unproven', 'text never set')
     return ('unproven', 'opaque text %r' % t)
+
+
+ADJACENT = set()     # names of entities proven adjacent in the function being analysed (set by the caller)
 
 
 def names_of(st, oid):
